@@ -488,6 +488,8 @@ func runC02(res *lib.Result, tier string, seed int64, args []string) error {
 				}
 				err = sess.DidOpen(rel, o.text)
 			case 's':
+				// the editor writes the buffer, then tells the server
+				os.WriteFile(filepath.Join(dir, rel), []byte(o.text), 0o644)
 				err = sess.DidSave(rel, o.text)
 			case 'x':
 				err = sess.DidClose(rel)
@@ -521,6 +523,33 @@ func runC02(res *lib.Result, tier string, seed int64, args []string) error {
 				}
 			}
 			impl = append(impl, showCacheGo(cur))
+			// the text the server ANALYSES for an open document (hook VerifAnalysedText: the text the file struct
+			// that requests are answered from was analysed from) is the text it holds for it. A buffer with syntax errors
+			// is not analysed further (its errors are shown, requests keep the last good analysis).
+			for u, held := range cur {
+				rel := fmt.Sprintf("doc%d.lua", u)
+				if _, nerr, _ := lib.ParseDump([]byte(held)); nerr > 0 {
+					continue
+				}
+				contents, found := sess.AnalysedText(rel)
+				if !found {
+					continue
+				}
+				res.Evaluations++
+				analysed := strings.TrimPrefix(string(contents), "\xEF\xBB\xBF")
+				if analysed != held {
+					var enc []string
+					for _, o2 := range ops {
+						enc = append(enc, o2.enc())
+					}
+					res.AddViolation("impl-vs-spec", fmt.Sprintf("e2e: after op %s the server holds %q for %s but the analysis its requests are answered from was made of %q", o.enc(), held, rel, analysed), "hist "+strings.Join(enc, ";"), false)
+					failed = true
+					break
+				}
+			}
+			if failed {
+				break
+			}
 		}
 		sess.Close()
 		if failed {
